@@ -14,6 +14,7 @@ LEMMA_FILES = {
     "RB": ["rb_scalar", "rb_seq_step", "rb_list", "rb_absent", "rb_dget_step", "rb_map_step", "rb_dict"],
     "DICT-ITEM": ["dict_distinct_step", "dict_item_step", "dict_wf_suffix_step", "dict_haskey_step"],
     "MEM-EX": ["mem_ex_step", "mem_ex_conv_step"],
+    "IS-MEM-NTH": ["ismem_nth"],
     "IS-MEM": ["ismem_empty", "ismem_unit", "ismem_concat", "ismem_nth", "ismem_prefix_step", "ismem_prefix_ends"],
     "CONCAT-ALL": ["concat_nth", "concat_all"],
     "RB-MEM": ["rb_mem_step"],
